@@ -746,26 +746,34 @@ func (s *session02) process(c Case, base *Case, br *res02) (*res02, int) {
 		}
 	}
 	if r.viol != nil {
+		vc, vr, note := c, r, ""
 		if key, mech := classify(c, r.sig.failF1, r.sig.failPrefix, r.sig.failDepth); key != "" {
-			recordFinding(s.sum, key, mech+r.viol.what, c, r.sig, func() (Case, string) {
-				sc := shrink02(c, r.cut, func(cand Case, rc *res02) bool {
-					k, _ := classify(cand, rc.sig.failF1, rc.sig.failPrefix, rc.sig.failDepth)
-					return k == key
+			// evidence of the cache mechanism: the identical history is clean with ample capacities
+			ra := runC02(ample(c))
+			if ra.viol == nil {
+				s.sum.Count("ample_rerun", "clean")
+				recordFinding(s.sum, key, mech+r.viol.what, c, r.sig, func() (Case, string) {
+					sc := shrink02(c, r.cut, func(cand Case, rc *res02) bool {
+						k, _ := classify(cand, rc.sig.failF1, rc.sig.failPrefix, rc.sig.failDepth)
+						return k == key && runC02(ample(cand)).viol == nil
+					})
+					what := mech + r.viol.what
+					if r2 := runC02(sc); r2.viol != nil {
+						_, m2 := classify(sc, r2.sig.failF1, r2.sig.failPrefix, r2.sig.failDepth)
+						what = m2 + r2.viol.what
+					}
+					return sc, what
 				})
-				what := mech + r.viol.what
-				if r2 := runC02(sc); r2.viol != nil {
-					_, m2 := classify(sc, r2.sig.failF1, r2.sig.failPrefix, r2.sig.failDepth)
-					what = m2 + r2.viol.what
-				}
-				return sc, what
-			})
-			return r, idx
+				return r, idx
+			}
+			s.sum.Count("ample_rerun", "failed")
+			vc, vr, note = ample(c), ra, "fails with ample capacities too"
 		}
-		s.sum.Count("violations", r.viol.kind+"/"+c.Backend)
-		sc, what := c, r.viol.what
-		if firstOfItsKind(r.viol.kind, c) {
-			kind := r.viol.kind
-			sc = shrink02(c, r.cut, func(cand Case, rc *res02) bool {
+		s.sum.Count("violations", vr.viol.kind+"/"+vc.Backend)
+		sc, what := vc, vr.viol.what
+		if firstOfItsKind(vr.viol.kind, vc) {
+			kind := vr.viol.kind
+			sc = shrink02(vc, vr.cut, func(cand Case, rc *res02) bool {
 				k, _ := classify(cand, rc.sig.failF1, rc.sig.failPrefix, rc.sig.failDepth)
 				return rc.viol.kind == kind && k == ""
 			})
@@ -773,9 +781,14 @@ func (s *session02) process(c Case, base *Case, br *res02) (*res02, int) {
 				what = r2.viol.what
 			}
 		}
-		s.sum.Violations = append(s.sum.Violations, map[string]any{"what": what, "case": sc, "evicting_config": evicting(c),
-			"node_cap_vs_max_path_depth":       fmt.Sprintf("%d vs %d", c.NodeCap, r.sig.failDepth),
-			"sig_dirty_node_with_evicted_leaf": r.sig.failF1, "sig_dirty_pointer_without_node": r.sig.failF2, "had_prefix_pair": r.sig.failPrefix})
+		v := map[string]any{"what": what, "case": sc, "evicting_config": evicting(vc),
+			"node_cap_vs_max_path_depth":       fmt.Sprintf("%d vs %d", vc.NodeCap, vr.sig.failDepth),
+			"sig_dirty_node_with_evicted_leaf": vr.sig.failF1, "sig_dirty_pointer_without_node": vr.sig.failF2, "had_prefix_pair": vr.sig.failPrefix}
+		if note != "" {
+			v["note"] = note
+			v["original_case"] = c
+		}
+		s.sum.Violations = append(s.sum.Violations, v)
 		return r, idx
 	}
 	// S(1): a twin ends at its base's root
@@ -814,6 +827,17 @@ func (s *session02) pairViolation(what string, a Case, asig sigState, b Case, bs
 		sig sigState
 	}{{b, bsig}, {a, asig}} {
 		if key, mech := classify(m.c, m.sig.f1, m.sig.hadPrefix, m.sig.maxDepth); key != "" {
+			// evidence of the cache mechanism: the pair is fine with ample capacities
+			aa, ab := ample(a), ample(b)
+			ra, rb := runC02(aa), runC02(ab)
+			if ra.viol != nil || rb.viol != nil || pred(ra, rb) {
+				s.sum.Count("ample_rerun", "failed")
+				sa, sb := shrinkPair(aa, ab, pred)
+				s.sum.Violations = append(s.sum.Violations, map[string]any{"what": what, "case": map[string]any{"base": sa, "twin": sb},
+					"note": "fails with ample capacities too", "original_case": map[string]any{"base": a, "twin": b}})
+				return
+			}
+			s.sum.Count("ample_rerun", "clean")
 			sig := m.sig
 			sig.failF1, sig.failF2, sig.failPrefix, sig.failDepth = sig.f1, sig.f2, sig.hadPrefix, sig.maxDepth
 			w := mech + "pair violation: " + what
